@@ -182,6 +182,11 @@ def mon_C06(h):
                     earlier = [i for i in _waiting_ids(sn, j["pipe"]) if i < j["id"]]
                     if earlier:
                         bad.append((k, "job %d started while job %d, accepted before it, is still waiting" % (j["id"], earlier[0])))
+                if j["start"] and j["id"] not in pj and st["ev"]["t"] == "schedule":
+                    # accepted and started in one step: it must not overtake jobs that were accepted before it and still wait
+                    earlier = [i for i in _waiting_ids(sn, j["pipe"]) if i < j["id"]]
+                    if earlier:
+                        bad.append((k, "job %d was started at once although job %d, accepted before it, is still waiting" % (j["id"], earlier[0])))
         prev = sn
     return bad
 
@@ -221,6 +226,9 @@ def mon_C03(h):
 
 def mon_C07(h):
     bad = []
+    cur = _defs_at(h)
+    reloaded = _reload_seen(h)
+    shut = _shut_at(h)
     clock, created = 0, {}
     prev = h.get("snap0") or EMPTY     # the state before the first event: jobs restored from a preloaded store are there
     dead = set()
@@ -242,6 +250,17 @@ def mon_C07(h):
                 dead.add(j["id"])
         if ev["t"] in ("runbegin",) and ev["id"] in dead:
             bad.append((k, "a task of the replaced / canceled job %d runs" % ev["id"]))
+        # the delay is the only wait: once it has passed and a slot is free, the oldest waiting job is started
+        if not reloaded[k + 1] and not shut[k + 1]:
+            jobs = _jobs(sn)
+            for p in {j["pipe"] for j in sn["jobs"]}:
+                d = _pipe(h, cur[k + 1], p)
+                w = _waiting_ids(sn, p)
+                if d is None or not w or not d.get("delay"):
+                    continue
+                head = jobs[w[0]]
+                if not head["timer"] and _count_running(sn, p) < d["conc"]:
+                    bad.append((k, "pipeline %d: the start delay of job %d has passed and a slot is free, but it is still waiting" % (p, w[0])))
         prev = sn
     return bad
 
@@ -625,12 +644,14 @@ def mon_C11(h):
     shut = _shut_at(h)
     prev = h.get("snap0") or EMPTY     # the state before the first event: jobs restored from a preloaded store are there
     forced = False
+    force_running = set()
     for k, st in enumerate(h["steps"]):
         sn, ev = st["snap"], st["ev"]
         if ev["t"] == "force":
             forced = True
         if ev["t"] == "restart":
             forced = False
+            force_running = set()
         if st.get("skip"):
             prev = sn
             continue
@@ -650,6 +671,13 @@ def mon_C11(h):
             for j in sn["jobs"]:
                 if _running(j) and j["cancels"] == 0 and not j["ctx"]:
                     bad.append((k, "forced shutdown: the running job %d is not being canceled" % j["id"]))
+            for j in prev["jobs"]:
+                if _running(j):
+                    force_running.add(j["id"])
+        for j in sn["jobs"]:
+            if j["id"] in force_running and j["completed"] and not j["canceled"]:
+                bad.append((k, "job %d was running when the shutdown was forced, but it ended as completed, not canceled" % j["id"]))
+                force_running.discard(j["id"])
         if ev["t"] == "shutdown_return":
             if st["res"] != "none":
                 bad.append((k, "Shutdown returned although a pipeline was running or an operation pending"))
